@@ -81,7 +81,8 @@ PLANS = {
              "recorded inputs: all 256 bytes at length 1, length 2 grids, positional sweeps, lengths 0..40(90), long random strings"),
     "C04": dict(
         mc=[mc("MC_Layouts", "MC_Layouts.cfg")],
-        families=[fam("fieldwalk", F.fam_fieldwalk), fam("randmsg", F.fam_random_messages, builds=ALL3), fam("corpus", F.fam_corpus)],
+        families=[fam("fieldwalk", F.fam_fieldwalk), fam("randmsg", F.fam_random_messages, builds=ALL3), fam("corpus", F.fam_corpus),
+                  fam("dechist", F.fam_decode_history, builds=("std",))],
         builds=ALL3,
         rule="cumulative code-order widths = ITU offsets for every field of every type (TLC); recorded: every field of every "
              "layout branch walked over its values on three backgrounds + random joint assignments"),
@@ -117,7 +118,7 @@ PLANS = {
              "boundary values of every field"),
     "C09": dict(
         mc=[mc("MC_Layouts", "MC_Layouts.cfg")],
-        families=[fam("types", F.fam_types, need_types=list(range(1, 22)) + [24, 27])],
+        families=[fam("types", F.fam_types, need_types=list(range(1, 22)) + [24, 27]), fam("dechist", F.fam_decode_history)],
         exhaustive="both",
         rule="all 64 type values x legal-length messages x random contents, every byte length; exhaustive in the type"),
     "C10": dict(
@@ -139,12 +140,12 @@ PLANS = {
         rule="every code of every enumerated field in every type carrying it x 3 backgrounds; ShipType 0..255 with round trip"),
     "C13": dict(
         mc=[mc("MC_Pure", "MC_Pure.cfg", workers=1)],
-        families=[fam("text", F.fam_text)],
+        families=[fam("text", F.fam_text), fam("dechist", F.fam_decode_history)],
         rule="table = formula for 0..63, Trim laws on strings <= 5 over 4 symbols (TLC); every character at every position, "
              "padding patterns at both ends, all-padding, maximal lengths, every field's alignment"),
     "C14": dict(
         mc=[mc("MC_Layouts", "MC_Layouts.cfg")],
-        families=[fam("varlen", F.fam_varlen, builds=("std", "none")), fam("types", F.fam_types)],
+        families=[fam("varlen", F.fam_varlen, builds=("std", "none"), twin_merge=E.tag_twin_merge), fam("types", F.fam_types)],
         builds=("std", "none"),
         rule="every supported type x every byte length 0..max+8 x contents; armored character counts x fill around legal lengths"),
     "C15": dict(
